@@ -31,6 +31,7 @@ KIND = {
     "g": ("OUT", "GIFT"),
     "d": ("OUT", "DONATE"),
     "M": ("INTRA", "MOVE"),
+    "k": ("OUT", "STAKING"),
 }
 
 
